@@ -149,6 +149,15 @@ def roundtrips(ctx, nconf):
             n, dim = rng.choice([120, 200]), 7
             X = make_data(rs, storage, metric, n, dim)
             Q = make_data(rs, storage, metric, 9, dim)
+            # rows of the index itself (and, for float data, rescaled copies): exact zero distances are where a
+            # mismatched correction shows
+            import scipy.sparse as _sps
+            if storage == "csr":
+                Q = _sps.vstack([Q, X[:4], X[4:7] * 2.0]).tocsr().astype(np.float32)
+            elif storage == "dense":
+                Q = np.vstack([Q, X[:4], X[4:7] * np.float32(2.0)]).astype(np.float32)
+            else:
+                Q = np.vstack([Q, X[:4]])
             kw = dict(metric=metric, n_neighbors=6, random_state=rng.randrange(1000), tree_init=rng.choice([True, True, False]), n_jobs=1,
                       compressed=rng.choice([False, False, True]))
             if kwds:
@@ -204,6 +213,9 @@ def roundtrips(ctx, nconf):
                     if not kwds and classify(copy1._distance_func, metric, pd, sp) != classify(f, metric, pd, sp):
                         problems.append("the loaded copy binds a different metric function (%s) than the original (%s)" %
                                         (classify(copy1._distance_func, metric, pd, sp), classify(f, metric, pd, sp)))
+                    if getattr(copy1, "_distance_correction", None) is not getattr(idx, "_distance_correction", None):
+                        problems.append("the loaded copy uses a different distance correction (%r) than the original (%r)" %
+                                        (getattr(copy1, "_distance_correction", None), getattr(idx, "_distance_correction", None)))
                     blob2 = dump(idx)                # the original must still be saveable
                     a2 = load(blob2).query(Q, k=5)
                     a0b = idx.query(Q, k=5)
